@@ -130,17 +130,28 @@ def run(ctx):
                 if da["typed"] is not None and da["index"] <= 5 and not strict:
                     coq_cases.append((f"sugar {i}\n{a}", da, not fin))
     # every form alone, in four contexts
-    ctxs = ["{S}", "if (x > 0) {{ {S} }} else {{ y = x; }}", "while (x > 0) {{ {S} }}", "while (x > 0) {{ if (y > 0) {{ z = x; }} else {{ {S} }} }}"]
+    ctxs = ["{S}", "if (x > 0) {{ {S} }} else {{ y = x; }}", "while (x > 0) {{ {S} }}", "while (x > 0) {{ if (y > 0) {{ z = x; }} else {{ {S} }} }}",
+            # counted loops whose guard variable is an operand of the form: the form and its rewriting must agree on whether the
+            # guard occurs in the body (and hence on whether this is an mwp loop at all)
+            "for (z = 0; z < x; z++) {{ {S} }}", "for (x = 0; x < z; x++) {{ {S} }}", "for (y = 0; y < z; y++) {{ {S} }}",
+            "while (y > 0) {{ for (z = 0; z < x; z++) {{ {S} }} }}"]
+    import re as _re
+    idents = lambda t: set(_re.findall(r"\{([xyz])\}", t))
     for sug, plain, _ in FORMS:
         for cx in ctxs:
+            if cx.lstrip().startswith(("for", "while (y > 0) {{ for")) and idents(sug) != set().union(*[idents(p) for p in plain]):
+                # `!x`, `sizeof(x)`, `+x;` ... rewrite to something that no longer MENTIONS x; whether x occurs in a loop body
+                # legitimately decides if a for loop is an mwp loop, so these forms are not compared inside a loop guarded by x
+                continue
             inst = lambda t: t.format(x="x", y="y", z="z")
             mk = lambda text: "int f(int x, int y, int z)\n{\n" + cx.format(S=text) + "\n}\n"
             a = mk(inst(sug))
             b = mk(inst(plain[0]) if len(plain) == 1 else "{ " + " ".join(inst(t) for t in plain) + " }")
-            da, db = compare(a, b, True, False, failing)
-            if da is not None and db is not None and da["typed"] is not None:
-                recs.append(da)
-                coq_cases.append((f"form {sug} in {cx}", da, False))
+            for strict in (False, True):
+                da, db = compare(a, b, True, strict, failing)
+                if da is not None and db is not None and da["typed"] is not None and not strict:
+                    recs.append(da)
+                    coq_cases.append((f"form {sug} in {cx}", da, False))
     if ctx.coq_ok:
         mism += e2e.coq_compare("c18", coq_cases)
     else:
